@@ -116,7 +116,22 @@ def rule_json(ctx):
                 (t[0] == 'sub' and t[2] == const(key) and T.contains(t, JD))
         a0 = c[2][0] if c[2] else T.kw(c, 'values')
         roles = {'values': a0, 'labels': T.kw(c, 'axes') or T.kw(c, 'labels'), 'dims': T.kw(c, 'dims')}
-        bad = [k for k, t in roles.items() if t is None or not popped(t, k)]
+        def from_key(t, key):
+            """every alternative of t is the entry `key` of the dict, possibly reshaped / converted (np.reshape, np.asarray, np.array)"""
+            if t is None:
+                return False
+            for alt in T.strip_phi(t):
+                x = alt
+                while x[0] == 'call' and (T.dotted(x[1]) or '') in ('np.reshape', 'np.asarray', 'np.array') and x[2]:
+                    x = x[2][0]
+                while x[0] == 'call' and T.call_name(x) == 'reshape' and x[1][0] == 'attr':
+                    x = x[1][1]
+                    while x[0] == 'call' and (T.dotted(x[1]) or '') in ('np.asarray', 'np.array') and x[2]:
+                        x = x[2][0]
+                if not popped(x, key):
+                    return False
+            return True
+        bad = [k for k, t in roles.items() if not from_key(t, k)]
         if bad:
             ctx.violated('R1', r, T.show(c)[:160], "from_jsondict must pass 'values' as the data, 'labels' as axes= and 'dims' as dims= (mismatch: %s)" % bad, node=p.node)
             continue
@@ -130,6 +145,12 @@ def rule_json(ctx):
             continue
         if p.value != c and not (p.value[0] in ('mut',) and p.value[1] == c):
             ctx.violated('R1', r, 'return ' + T.show(p.value)[:80], 'from_jsondict returns the array it built', node=p.node)
+            continue
+        # values.tolist() does not record the shape of an array with an empty dimension ((0, 3) and (0,) both give []): the reader has to use 'shape'
+        uses_shape = any(popped(x, 'shape') for x in T.subterms(a0)) or any(popped(x, 'shape') for e in p.calls('reshape') for x in T.subterms(e.a))
+        if 'shape' in written and not uses_shape:
+            ctx.violated('R1', r, "'shape' ignored", "to_jsondict writes 'shape' but from_jsondict rebuilds the array from the nested 'values' lists alone: for an array with an empty "
+                         "dimension that is not the last one (shape (0, 3)) tolist() is [] and the read-back fails / has another shape", node=p.node)
             continue
         okr = True
     if okr:
@@ -165,12 +186,14 @@ def rule_constructible(ctx):
 
 
 def rule_no_write(ctx):
-    ctx.rule('R3', 'writers do not modify the in-memory object', 4)
+    ctx.rule('R3', 'writers do not modify the in-memory object; readers do not modify their input', 6)
     E = effects.Effects(ctx.P)
-    for q, cfg in ((D + 'to_jsondict', {}), (D + 'to_json', {}), (D + 'write_nc', {}), ('dimarray.dataset.Dataset.write_nc', {})):
+    # ... and the readers do not consume what they are given (a json dict can be read twice)
+    for q, cfg in ((D + 'to_jsondict', {}), (D + 'to_json', {}), (D + 'write_nc', {}), ('dimarray.dataset.Dataset.write_nc', {}),
+                   (D + 'from_jsondict', {}), (D + 'from_json', {})):
         fi = ctx.fn(q)
         s = E.summary(fi, cfg)
-        bad = {p: w for p, w in s.mutates.items() if not p.startswith('*') and p not in ('f',)}
+        bad = {p: w for p, w in s.mutates.items() if not p.startswith('*') and p not in ('f', 'cls')}
         if bad:
             for p, wit in bad.items():
                 chain = wit[0].split('  ->  ')
